@@ -181,6 +181,14 @@ def cases(tier, rng, dist, focus=None):
         vals = [Fraction(rng.randint(-5, 5)) for _ in range(2 * n)]
         kind = rng.choice(["add", "mul", "bad", "cube"])
         yield {"f": "pot", "x": [str(v) for v in vals[:n]], "y": [str(v) for v in vals[n:]], "kind": kind, "d": str(Fraction(rng.randint(-9, 9), rng.choice([1, 2])))}
+    # the named statistics under a non-additive shift, many repetitions, outlying values: the hit count must come from
+    # the named statistic in both keep_dist branches
+    for k in range(16 if tier == "quick" else 160):
+        nx, ny = rng.randint(3, 5), rng.randint(3, 5)
+        xs = [rng.randint(0, 3) for _ in range(nx)]; ys = [rng.randint(0, 4) for _ in range(ny)]
+        xs[rng.randrange(nx)] = rng.choice([9, 14, -7]); ys[rng.randrange(ny)] = rng.choice([14, 9, -5])
+        yield {"f": "real", "fn": "two_sample_shift", "x": xs, "y": ys, "stat": "t" if k % 4 else "mean", "alt": rng.choice(ALTS),
+               "reps": 60, "plus1": rng.random() < 0.5, "seed": 2 * rng.randint(0, 10**5), "gseed": rng.randint(0, 10**6)}
     # real seeds: reproducibility, generator interchangeability, p-value assembly on named float statistics
     for _ in range(N // 2):
         nx, ny = rng.randint(2, 6), rng.randint(2, 6)
@@ -326,7 +334,9 @@ def real_call(c, seed, keep=True):
     if fn == "two_sample":
         return core.two_sample(x, y, reps=c["reps"], stat=c["stat"], alternative=c["alt"], keep_dist=keep, seed=seed, plus1=c["plus1"]), (x, y)
     if fn == "two_sample_shift":
-        return core.two_sample_shift(x, y, reps=c["reps"], stat=c["stat"], alternative=c["alt"], keep_dist=keep, seed=seed, plus1=c["plus1"], shift=0.5), (x, y)
+        # scalar shift, or a non-additive pair (f(u)=2u): the two potential-outcome columns then differ by more than a constant
+        sh = 0.5 if c["seed"] % 2 else (lambda u: u * 2.0, lambda u: u / 2.0)
+        return core.two_sample_shift(x, y, reps=c["reps"], stat=c["stat"], alternative=c["alt"], keep_dist=keep, seed=seed, plus1=c["plus1"], shift=sh), (x, y)
     if fn == "one_sample":
         return core.one_sample(x, None, reps=c["reps"], stat=c["stat"], alternative=c["alt"], keep_dist=keep, seed=seed, plus1=c["plus1"]), (x,)
     if fn in ("corr", "spearman_corr"):
